@@ -23,6 +23,7 @@ func init() {
 			if custom {
 				cfg.EmailClaim, cfg.GroupsClaim = "mail", "roles"
 			}
+			cfg.UnsetClaimNames = vpS(cm, "claimMap") == "unset"
 			audClaim := vpS(cm, "audClaim")
 			if audClaim == "azp" {
 				cfg.AudienceClaims = []string{"azp"}
@@ -265,6 +266,10 @@ func init() {
 						"groups": tag(h.Get("X-Forwarded-Groups"), "g1,g2", "pg1"),
 						"pu":     tag(h.Get("X-Forwarded-Preferred-Username"), "alice", "prof-alice"),
 					}
+				}
+				obs["unverifiedEmailUsed"] = false
+				if id, ok := obs["identity"].(map[string]interface{}); ok && obs["accepted"] == true && vpS(tok, "ev") == "false" {
+					obs["unverifiedEmailUsed"] = id["email"] == "tok"
 				}
 				status := 0
 				if r != nil {
